@@ -677,6 +677,20 @@ pub fn gen_prog(rng: &mut ChaCha8Rng) -> (Prog, &'static str) {
             p.cons.push(DCon { name: None, lhs: DE::Var(name.into(), vec![]), rel: "<=", rhs: DE::Num(4.0), binds: vec![] });
         }
     }
+    if rng.gen_bool(0.12) && !p.consts.iter().any(|(n, _)| n == "B2") && !p.decls.iter().any(|d| d.base == "zz") {
+        // a difference of two run-time non-negative integers (a length and a range variable) that goes below zero
+        // in a range end: 0..(len(B2) - i) for i beyond the length is an empty range, not an error
+        let m = rng.gen_range(1..4);
+        p.consts.push(("B2".into(), V::Arr((0..m).map(|k| V::Int(k + 1)).collect())));
+        p.decls.push(DDecl { base: "zz".into(), idx: vec![var("kk")], ty: "Real(0, 5)".into(), binds: vec![Bind { pat: Pat::One("kk".into()), iter: Iter::Range(lit(0), lit(6), false) }] });
+        p.cons.push(DCon {
+            name: Some(("diff".into(), vec![var("ii")])),
+            lhs: DE::Scoped(Agg::Sum, vec![Bind { pat: Pat::One("kk".into()), iter: Iter::Range(lit(0), IExp::Sub(bx(IExp::Len("B2".into())), bx(var("ii"))), false) }], bx(DE::Var("zz".into(), vec![var("kk")]))),
+            rel: "<=",
+            rhs: DE::Num(3.0),
+            binds: vec![Bind { pat: Pat::One("ii".into()), iter: Iter::Range(lit(0), lit(5), false) }],
+        });
+    }
     (p, label)
 }
 
